@@ -11,6 +11,7 @@ from pv import judges, plans
 
 ID = 'C20'
 TITLE = 'future adapters / cancellable action'
+ANCHORS = ['plumpy.futures:create_task', 'plumpy.futures:unwrap_kiwi_future', 'plumpy.communications:plum_to_kiwi_future', 'plumpy.futures:CancellableAction.run', 'plumpy.processes:Process._schedule_rpc']
 LEVEL = 'exploration'
 TECHNIQUE = ('runtime monitoring: outcome-propagation monitor on the adapter futures (state, result, exception, done-callback count) for generated '
              'nests of futures resolving to futures, all completion orders, completion from the loop thread or another thread; call-count monitor '
